@@ -424,7 +424,13 @@ def build(run):
         f = Snippet(g.fn('rename_path', impl=r'ModuleGraph'), 'vacuity-probe ModuleGraph::rename_path' if probe else 'ModuleGraph::rename_path')
         mono(f)
         rules.strip_vis_attrs(f)
-        f.rw('R7', r'\bold\b', 'old_path', expect='+')   # `old` is a keyword of the specification language
+        msig = re.search(r'fn rename_path\(\s*&mut self,\s*(\w+): &u64,\s*(\w+): u64,?\s*\)', make_mask(f.text))
+        if not msig:
+            raise Undecided("ModuleGraph::rename_path: signature (&mut self, old: &path, new: path) not found")
+        # the parameters are called old_path / new in the contract, whatever the code calls them (`old` is a keyword of the specification language)
+        f.rw('R7', r'\b%s\b' % msig.group(1), 'old_path', expect='+')
+        if msig.group(2) != 'new':
+            f.rw('R7', r'\b%s\b' % msig.group(2), 'new', expect='+')
         # R11m: `for node in self.graph.iter_mut() { BODY(node) }` -> indexed loop; the node is taken out before and put back after BODY
         mask = make_mask(f.text)
         ml = re.search(r'for (\w+) in self\.graph\.iter_mut\(\) \{', mask)
